@@ -446,7 +446,9 @@ def cover_1d(terms, n, nmin=1):
             if lo is None or hi is None:
                 return "unknown", "loop range [%s, %s) cannot be evaluated" % (sym.show(lp["lo"]), sym.show(lp["hi"]))
             i = lo
-            while (i < hi) if lp["cmp"] == "<" else (i <= hi):
+            first_ = bool(lp.get("at_least_once"))
+            while first_ or ((i < hi) if lp["cmp"] == "<" else (i <= hi)):
+                first_ = False
                 e2 = dict(env)
                 e2[lp["var"]] = i
                 gi = _eval_int(g, e2)
